@@ -491,6 +491,9 @@ impl Gen {
             singles.push(N::NProp("np".into(), None, vec![N::Decl("q".into(), "w".into())]));
             if depth >= 1 {
                 singles.push(N::NProp("f".into(), Some("u".into()), vec![N::Decl("g".into(), "w".into()), N::NProp("h".into(), None, vec![N::Decl("i".into(), "x".into())])]));
+                // declarations after an inner nested block, two and three levels deep
+                singles.push(N::NProp("j".into(), None, vec![N::NProp("k".into(), None, vec![N::Decl("l".into(), "x".into())]), N::Decl("m".into(), "w".into())]));
+                singles.push(N::NProp("j".into(), None, vec![N::Decl("a".into(), "w".into()), N::NProp("k".into(), Some("u".into()), vec![N::NProp("l".into(), None, vec![N::Decl("n".into(), "x".into())]), N::Decl("o".into(), "y".into())]), N::Decl("m".into(), "w".into())]));
             }
         }
         if depth > 0 {
@@ -603,6 +606,9 @@ fn run_trees(ctx: &Ctx, sub: &'static str, bound: &str, trees: &[Vec<N>]) {
 }
 
 pub fn run(ctx: &Ctx) {
+    // the watchdog's clock also covers the harness's own oracle work (reference models, DOM enumeration);
+    // the limit is generous so that machine load cannot turn a slow case into a verdict
+    ctx.hang_limit_s.store(300, std::sync::atomic::Ordering::Relaxed);
     // depth 2, full alphabet, sibling pairs
     let g2 = Gen { sels: 14, queries: 7, pairs: true };
     let t2 = g2.lists(2, false, 0, false);
